@@ -57,6 +57,12 @@ impl FromStr for Sorter {
 
 fn read_to_eof<R: Read>(r: &mut Reader<R>) -> Result<String, SelectionParseError> {
     let mut chars = Vec::new();
+    // The selection leaves the byte that ended it as the current one. Only `=` or
+    // a white space can separate it from the direction, anything else is kept (and rejected).
+    match r.peek()? {
+        None | Some(b'=' | b' ' | b'\n' | b'\t' | b'\r') => {}
+        Some(ch) => chars.push(ch),
+    }
     loop {
         if let Some(ch) = r.next()? {
             chars.push(ch)
